@@ -790,6 +790,16 @@ class State:
             if d is None:
                 d = other._alias_bound(k, numeric_places, idx_o)
             if d is not None:
+                # the weaker side may hold a stale constant and imply the tighter one through a third term (`len - i <= 0`,
+                # `i - start <= -1`, but still `len - start <= 0` from before the cursor moved): ask it before giving in
+                if c > d:
+                    c2 = self.bound1(k[0], k[1], idx_s)
+                    if c2 is not None and c2 < c:
+                        c = c2
+                elif d > c:
+                    d2 = other.bound1(k[0], k[1], idx_o)
+                    if d2 is not None and d2 < d:
+                        d = d2
                 s.rel[k] = max(c, d)
         # relations that only the other side holds explicitly but this side implies through an alias
         for k, d in other.rel.items():
@@ -1052,8 +1062,12 @@ class State:
         a, b = k
         return self.bound1(a, b, idx if idx is not None else self._rel_index())
 
-    def widen(self, new, thresholds):
-        """self = old state at a loop head, new = joined state; returns widened state"""
+    def widen(self, new, thresholds, strict=False):
+        """self = old state at a loop head, new = joined state; returns widened state.
+        strict: keep only relations the old state *holds* (not those it merely implies through other relations or intervals).
+        Two relations that imply each other through a third term can otherwise keep each other alive for ever, each re-derived
+        with a constant one larger than the one just dropped (found by a behaviour-preserving refactoring of SauceString::read);
+        the solver switches to strict after a few widenings of the same head."""
         if self.bottom:
             return new.copy()
         s = State()
@@ -1084,6 +1098,8 @@ class State:
         idx = None
         for k, d in new.rel.items():
             c = self.rel.get(k)
+            if c is None and strict:
+                continue
             if c is None:
                 # the old state may imply the relation without holding it (a place that was still a constant there)
                 if idx is None:
